@@ -51,7 +51,7 @@ def markup_src(m: dict[str, Any]) -> str:
     if k == "out":
         return "{{" + h(f[0]) + " '" + m["lit"] + "' " + h(f[1]) + "}}"
     if k == "assign":
-        return "{%" + h(f[0]) + " assign v = 1 " + h(f[1]) + "%}"
+        return "{%" + h(f[0]) + " assign v = " + ("'" + m["lit"] + "'" if m.get("lit") else "1") + " " + h(f[1]) + "%}"
     if k == "inline":
         text = m.get("lit") or ""
         if text == "TIGHT":
@@ -63,10 +63,10 @@ def markup_src(m: dict[str, Any]) -> str:
         # between the two echo lines: nothing, or lines that must vanish without taking anything else with them
         if m.get("var") == "empty":
             return "{%" + h(f[0]) + " liquid" + ("\n" if m["lit"] == " " else " ") + h(f[1]) + "%}"  # a liquid tag without any line
-        mid = LIQUID_MIDDLES[m.get("var", 0)]
+        mid = (" # " + "n" * 3000 + "\n" + " echo ''\n" * 300) if m.get("var") == "long" else LIQUID_MIDDLES[m.get("var", 0)]
         return "{%" + h(f[0]) + " liquid\n echo '" + m["lit"] + "'\n" + mid + " echo 'q'\n" + h(f[1]) + "%}"
     if k == "tcomment":
-        return "{#" + h(f[0]) + " note " + h(f[1]) + "#}"
+        return "{#" + h(f[0]) + " " + (m.get("lit") or "note") + " " + h(f[1]) + "#}"
     name = {"raw": "raw", "comment": "comment", "doc": "doc", "if": "if true"}[k]
     end = {"raw": "endraw", "comment": "endcomment", "doc": "enddoc", "if": "endif"}[k]
     return "{%" + h(f[0]) + " " + name + " " + h(f[1]) + "%}" + m["body"] + "{%" + h(f[2]) + " " + end + " " + h(f[3]) + "%}"
@@ -238,6 +238,23 @@ def markups(tc: bool, bodies: list[str], lits: list[str]):
 OPENER_TEXTS = ["a  {#- b", "a \n{#-", "a  {# b ", "{#- b", "a {#-} b", "a  {#-#", "x \t{#--", "a  {# b } c"]
 
 
+def long_markup_cases():
+    """One markup token of 0.5 .. 40 KB (a long literal, a long comment, a long liquid tag, a long raw / comment / doc body) between padded
+    texts, with every hyphen combination: how much text a delimiter trims does not depend on how long the markup is."""
+    for size in (600, 1100, 2100, 5000, 40_000):
+        filler = ("word " * (size // 5 + 1))[:size]
+        ms: list[dict[str, Any]] = []
+        for f in itertools.product((0, 1), repeat=2):
+            ms += [{"k": "out", "f": list(f), "lit": filler}, {"k": "assign", "f": list(f), "lit": filler}, {"k": "inline", "f": list(f), "lit": filler}, {"k": "liquid", "f": list(f), "lit": filler, "var": 0},
+                   {"k": "liquid", "f": list(f), "lit": "L", "var": "long"}, {"k": "tcomment", "f": list(f), "lit": filler}]
+        for f in itertools.product((0, 1), repeat=4):
+            ms += [{"k": kk, "f": list(f), "body": " " + filler + " "} for kk in ("raw", "comment", "doc", "if")]
+        for m in ms:
+            tc = m["k"] == "tcomment"
+            yield {"segs": [" a \n ", m, " \n b "], "tc": tc}
+            yield {"segs": [" a \n ", dict(m), " \n b ", {"k": "out", "f": [1, 1], "lit": "Z"}, "  c"], "tc": tc, "async": size == 1100}
+
+
 def unclosed_opener_cases():
     for tc in (False, True):
         ms = [m for m in markups(False, ["", " x "], ["L"]) if m["k"] != "tcomment"]
@@ -249,7 +266,7 @@ def unclosed_opener_cases():
 
 
 def cases(ctx: core.Ctx):
-    for gi, c in enumerate(unclosed_opener_cases()):
+    for gi, c in enumerate(itertools.chain(unclosed_opener_cases(), long_markup_cases())):
         if gi % ctx.nshards == ctx.shard:
             yield c
     rng = ctx.rng("cases")
